@@ -524,7 +524,9 @@ func (w *world) checkWitness(i int, prefixPath [][]byte, salt int) {
 		prefixPath = m.AppendPath(w.list[:i])
 	}
 	var ok bool
-	p, st := try(func() { ok = rmt.VerifyRightWitness(uint64(i), copyList(prefixPath), copyList(wit), append([]byte{}, root...)) })
+	p, st := try(func() {
+		ok = rmt.VerifyRightWitness(uint64(i), copyList(prefixPath), copyList(wit), append([]byte{}, root...))
+	})
 	if p != nil {
 		if n == 0 && i == 0 && len(wit) == 0 && strings.Contains(fmt.Sprint(p), "index out of range [0] with length 0") && evid.R.KnownFinding(sigF3) {
 			evid.R.Excluded(1)
@@ -558,6 +560,11 @@ func (w *world) checkUpdate(pos []int, newData [][]byte) {
 	must(w.f, "GenerateProof", c, func() { proof, err = w.tr.GenerateProof(copyList(q)) })
 	if err != nil {
 		w.f.Fatalf("GenerateProof before update: %v\n%s", err, c())
+	}
+	for j := range pos {
+		if j >= len(proof.Idxs) || proof.Idxs[j] != idxs[j] {
+			w.f.Fatalf("GenerateProof before update: idxs %v, want %v\n%s", proof.Idxs, idxs, c())
+		}
 	}
 	mod := copyList(w.list)
 	for j, p := range pos {
@@ -1062,12 +1069,12 @@ func TestDuplicateLeavesRoots(t *testing.T) {
 
 func drawSize(t *rapid.T, label string, maxExp int) int {
 	switch rapid.IntRange(0, 9).Draw(t, label+"-class") {
-	case 0, 1:
+	case 0:
 		return rapid.IntRange(0, 40).Draw(t, label)
-	case 2:
+	case 1, 2:
 		return rapid.IntRange(0, 2100).Draw(t, label)
 	default:
-		k := rapid.IntRange(1, maxExp).Draw(t, label+"-exp")
+		k := rapid.IntRange(3, maxExp).Draw(t, label+"-exp")
 		d := rapid.IntRange(-3, 3).Draw(t, label+"-delta")
 		n := (1 << uint(k)) + d
 		if n < 0 {
@@ -1246,11 +1253,19 @@ func TestRandomTrees(t *testing.T) {
 			}
 			nd := make([][]byte, len(pos))
 			salt := rapid.Uint64().Draw(t, "newSeed")
+			present := map[string]bool{}
+			for _, l := range w.list {
+				present[string(l)] = true
+			}
 			for j := range nd {
-				nd[j] = updLeaf(salt, j)
+				nd[j] = updLeaf(salt, u*1000+j)
 				if rapid.IntRange(0, 9).Draw(t, "shortNew") == 0 {
 					nd[j] = nd[j][:rapid.IntRange(9, 31).Draw(t, "newLen")]
 				}
+				for present[string(nd[j])] { // leaves stay distinct (hash-keyed location index)
+					nd[j] = append(nd[j], byte(u), byte(j), 0xfd)
+				}
+				present[string(nd[j])] = true
 			}
 			w.checkUpdate(pos, nd)
 			w.checkState()
